@@ -110,3 +110,17 @@ Example C12_matchers_fire :
   off_by1 (EIndex (EIdent "xs" TInts) (ECall (FPrim PLen) [EIdent "xs" TInts])) = true /\
   case_order (fun t i => N.eqb i 1 || (N.eqb t 3 && N.eqb i 2)) [(1%N, KIface); (3%N, KConcrete); (2%N, KIface)] = [(1, 0); (2, 0)].
 Proof. vm_compute. repeat split. Qed.
+
+(* The sloppyLen / offBy1 rules match a callee SPELLED len: with a user function of that name the claims fail
+   (recorded findings C12/sloppyLen/shadowed-builtin, C12/offBy1/shadowed-builtin) *)
+Theorem C12_sloppy_len_shadowed_refuted :
+  exists en e, env_ok en /\ sloppy_len_claim_by_name e = Some true /\ sloppy_len_claim e = None /\
+    eval en e = Some (RVal (VBool false), [Ev "len" [VInts [3; 1]%Z] (VInt (-1))]).
+Proof. exact sloppy_len_shadowed_refuted. Qed.
+Print Assumptions C12_sloppy_len_shadowed_refuted.
+
+Theorem C12_off_by1_shadowed_refuted :
+  exists en e, env_ok en /\ off_by1_by_name e = true /\ off_by1 e = false /\
+    eval en e = Some (RVal (VInt 3), [Ev "len" [VInts [3; 1]%Z] (VInt 0)]).
+Proof. exact off_by1_shadowed_refuted. Qed.
+Print Assumptions C12_off_by1_shadowed_refuted.
